@@ -123,13 +123,19 @@ Fixpoint sigfig_scale (fuel : nat) (d k : Z) : option (Z * Z) :=
   if d <? Z.quot P18 10 then
     match fuel with O => None | S f => match dchk (d * 10) with None => None | Some d' => sigfig_scale f d' (k + 1) end end
   else Some (d, k).
+Definition int_fits (z : Z) : bool := bitlen z <=? 256.         (* sdk Int: NewIntFromBigIntMut / SafeMul panic beyond 256 bits *)
 Definition sigfig_round (d : Z) : option Z :=
   if d =? 0 then Some d else
   match sigfig_scale 40 d 0 with None => None | Some (dk, k) =>
   match dchk (dk * sig_figs) with None => None | Some dks =>
-  let numerator := chop_round P18 dks * P18 in                    (* RoundInt().ToLegacyDec() *)
+  let n := chop_round P18 dks in                                  (* RoundInt() *)
+  if negb (int_fits n) then None else
+  let numerator := n * P18 in                                     (* .ToLegacyDec() *)
   let tenk := d_power (10 * P18) k in                             (* NewInt(10).ToLegacyDec().Power(k) *)
-  let den := sig_figs * Z.quot tenk P18 in                        (* tenToSigFig.Mul(tenToK.TruncateInt()) *)
+  let tk := Z.quot tenk P18 in                                    (* .TruncateInt() *)
+  if negb (int_fits tk) then None else
+  let den := sig_figs * tk in                                     (* tenToSigFig.Mul(...) *)
+  if negb (int_fits den) then None else
   if den =? 0 then None else Some (Z.quot numerator den)
   end end.
 
